@@ -2,6 +2,7 @@ import PyxisVerif.Spec.C09
 import PyxisVerif.Lemmas.C09
 import PyxisVerif.Props.C09Novft
 import PyxisVerif.Props.C09Case
+import PyxisVerif.Props.C09Vft
 /-!
 # C09 – the output is a deterministic function of the input set
 
